@@ -343,6 +343,11 @@ func mainErr(args []string) error {
 // Note that it uses and modifies global state; in general, it should only be
 // called once from mainErr in the top-level garble process.
 func toolexecCmd(command string, args []string) (*exec.Cmd, error) {
+	// Our callers remove the directory named by GARBLE_SHARED once we return.
+	// Don't let them remove a directory this process didn't create,
+	// such as one inherited from a parent garble process.
+	os.Unsetenv("GARBLE_SHARED")
+
 	// Split the flags from the package arguments, since we'll need
 	// to run 'go list' on the same set of packages.
 	flags, args := splitFlagsFromArgs(args)
